@@ -67,19 +67,25 @@ def entries (ph el : List String) : P (Option (List (Entry Float))) := do
 def showEntries (es : List (Entry Float)) : String :=
   " ".intercalate (toString es.length :: es.map (fun e => showLatch e.l))
 
-/-- sc.run  history names tf fuel reset?(T|F) entries
-    → last row, stopped early, stop flag of every step taken, latches -/
+/-- stop flags after each of the steps k0+1 .. m, entries `es` being those of row k0 -/
+def flagsFrom (d : PData Float) (es : List (Entry Float)) (k0 m : Nat) : List Bool :=
+  ((List.range (m - k0)).foldl (fun (acc : List (Entry Float) × List Bool) i =>
+      let es' := testAll d (k0 + i + 1) acc.1
+      (es', stopFlag es' :: acc.2)) (es, [])).2.reverse
+
+/-- sc.run  history names tf fuel k0 reset?(T|F) entries      (k0 = row at which `solve` is entered)
+    → last row, stopped early, stop flag after every step taken, latches -/
 def runV : P String := do
   let d ← pdata; let ph ← lst tok; let el ← lst tok
-  let tf ← flt; let fuel ← nat; let rs ← bool
+  let tf ← flt; let fuel ← nat; let k0 ← nat; let rs ← bool
   let es ← entries ph el
   match es with
   | none => pure "raise"
   | some es =>
     let es := if rs then resetAll es else es
-    let (m, stopped, es') := run d tf fuel 0 es
-    let flags := (List.range m).map (fun k => bstr (stopFlag (evolve d es (k+1))))
-    pure s!"{m} {bstr stopped} {" ".intercalate (toString m :: flags)} {showEntries es'}"
+    let (m, stopped, es') := run d tf fuel k0 es
+    let flags := (flagsFrom d es k0 m).map bstr
+    pure s!"{m} {bstr stopped} {" ".intercalate (toString flags.length :: flags)} {showEntries es'}"
 
 /-- sc.ttp  history names tf fuel conds(with their current latches; modes are all 'and')
     → the reported times -/
